@@ -128,7 +128,12 @@ def rand_label(rng, n, allow_id=True, max_index=None):
     return tuple((q, rng.choice([1, 2, 3])) for q in qs)
 
 
+HASH_TWINS = [(-16, 0), (-32, 0)]  # -1 and -2: CPython hashes them alike (hash(-1) == hash(-2) == -2), also as floats
+
+
 def rand_coef(rng, allow_zero=True):
+    if rng.random() < 0.2:
+        return rng.choice(HASH_TWINS + [(16, 0), (32, 0), (0, -16), (0, -32)])
     while True:
         c = (rng.randint(-40, 40), rng.choice([0, 0, 0, rng.randint(-24, 24)]))
         if allow_zero or c != (0, 0):
@@ -189,8 +194,13 @@ def stim_terms(lst, n):
 
 
 def key_canon(k):
-    fs, n = k
-    return (frozenset((label_of_real(l), fix(c)) for l, c in fs), int(n))
+    """canonical reading of a cache key of the documented shape (frozenset of (label, coefficient), n_qubits);
+    any other shape is reported as opaque (a correspondence difference, not a crash)"""
+    try:
+        fs, n = k
+        return (frozenset((label_of_real(l), fix(c)) for l, c in fs), int(n))
+    except Exception:  # noqa: BLE001
+        return ("opaque-key", type(k).__name__)
 
 
 def k_cache(ctx: Ctx):
@@ -218,7 +228,8 @@ def k_cache(ctx: Ctx):
                 m = rng.random()
                 if terms and m < 0.4:
                     j = rng.randrange(len(terms))
-                    terms[j] = (terms[j][0], rand_coef(rng))
+                    twin = {HASH_TWINS[0]: HASH_TWINS[1], HASH_TWINS[1]: HASH_TWINS[0]}.get(tuple(terms[j][1]))
+                    terms[j] = (terms[j][0], twin if (twin and rng.random() < 0.7) else rand_coef(rng))
                     steps.append(("set", i, terms[j]))
                 elif terms and m < 0.6:
                     j = rng.randrange(len(terms))
